@@ -253,6 +253,78 @@ def featureTags (job : Job) : List String :=
     | .kwin _ _ _ g => [if g == .cnt then "kwin:cnt" else "kwin:ordered-agg"]
     | _ => []).eraseDups
 
+/-! ### the region of the known engine defect F18 (`iterate` + all-to-all stage in its body) -/
+
+/-- does the stage (or a loop nested in it) contain an all-to-all connection? -/
+partial def allToAll : BStage → Bool
+  | .shuffle | .gbsum .. | .gbfold .. | .gbwin .. | .joinside .. => true
+  | .replay (.mk _ _ _ _ _ b) | .iterate (.mk _ _ _ _ _ b) | .iteritems (.mk _ _ _ _ _ b)
+  | .iterboth (.mk _ _ _ _ _ b) => b.any allToAll
+  | _ => false
+
+mutual
+/-- output of a body stage (as `evalStage`) and the largest number of elements that enter, in some
+    round, an `iterate` whose body contains an all-to-all stage -/
+partial def stageLoad (side : List V) (s : BStage) (st : Int) (xs : List V) : List V × Nat :=
+  match s with
+  | .replay l => let r := loopLoad false side l xs; ([V.int r.1.1], r.2)
+  | .iterate l => let r := loopLoad true side l xs; ([V.int r.1.1], r.2)
+  | .iteritems l => let r := loopLoad true side l xs; (r.1.2, r.2)
+  | .iterboth l => let r := loopLoad true side l xs; (r.1.2 ++ [V.int r.1.1], r.2)
+  | s => (evalStage side 1 s st xs, 0)
+
+partial def bodyLoad (side : List V) (body : List BStage) (st : Int) (xs : List V) : List V × Nat :=
+  body.foldl (fun acc s => let r := stageLoad side s st acc.1; (r.1, max acc.2 r.2)) (xs, 0)
+
+/-- mirrors `loopRun` -/
+partial def loopLoad (fb : Bool) (side : List V) (l : LoopSpec) (xs : List V) : (Int × List V) × Nat :=
+  match l with
+  | .mk iters init agg cp ck body =>
+    let risky := fb && body.any allToAll
+    let rec go (n : Nat) (st : Int) (xs : List V) (load : Nat) : (Int × List V) × Nat :=
+      match n with
+      | 0 => ((st, xs), load)
+      | n + 1 =>
+        let load := if risky then max load xs.length else load
+        let r := bodyLoad side body st xs
+        let out := r.1
+        let load := max load r.2
+        let st' := agg.glob st ((projs out).foldl agg.loc 0)
+        if cp.eval ck (.int st') && n != 0 then go n st' (if fb then out else xs) load
+        else ((st', out), load)
+    go (max iters 1) init xs 0
+end
+
+/-- the largest content entering a risky `iterate` anywhere in the job (0 = no risky iterate) -/
+def f18Load (job : Job) : Nat :=
+  let st := seqRun job
+  let inp := fun (r : Ref) => (st.get r (some false)).getD []
+  let sideOf := fun (sd : Option Ref) => match sd with | some b => inp b | none => []
+  job.foldl (fun acc n => match n.kind with
+    | .replay a sd l => max acc (loopLoad false (sideOf sd) l (inp a)).2
+    | .iterate a sd l => max acc (loopLoad true (sideOf sd) l (inp a)).2
+    | _ => acc) 0
+
+/-- elements per batch of a batch-mode token, if the mode is "small" (≤ 8) -/
+def smallBatch (bm : String) : Option Nat :=
+  if bm == "single" then some 1
+  else if bm.startsWith "f" then ((bm.drop 1).toString.toNat?).filter (· ≤ 8)
+  else if bm.startsWith "a" then
+    (((bm.drop 1).toString.splitOn ":").head?.bind String.toNat?).filter (· ≤ 8)
+  else none
+
+def totalReplicas (cfg : String) : Nat :=
+  if cfg.startsWith "L" then ((cfg.drop 1).toString.toNat?).getD 1
+  else (((cfg.drop 1).toString.splitOn ":").filterMap String.toNat?).foldl (· + ·) 0
+
+/-- (a)-(d) of the narrow classification of F18: a risky iterate exists and receives, in some round
+    of the sequential semantics, more than CHANNEL_CAPACITY = 16 batches of a small batch mode, on a
+    deployment with at least 2 replicas -/
+def inF18Region (job : Job) (cfg bm : String) : Bool :=
+  match smallBatch bm with
+  | none => false
+  | some b => totalReplicas cfg ≥ 2 && f18Load job > 16 * b
+
 def mix (a b c : Nat) : Nat :=
   let x := (a * 1000003 + b * 7919 + c * 104729 + 12345) % 4294967291
   (x * 48271 + (x / 65536)) % 2147483647
@@ -302,7 +374,12 @@ def handle (c : Case) : Verdict :=
     (if bm.startsWith "a" then [s!"batch:{bm}"] else []) ++
     (kinds.filter (· != "sink")).map (s!"op:{·}") ++ featureTags job
   let nontrivial := seq.any fun p => !p.2.isEmpty
-  if c.implOut == ["infra"] then
+  if c.implOut == ["blocked"] && inF18Region job cfg bm then
+    -- known engine defect F18 (tracked under C04): the run yields no sinks, nothing is compared
+    { out := c.implOut,
+      oracle := some s!"[C04] known:F18-iterate-shuffle-cross-replica-deadlock engine blocked ({cfg} {bm}); {f18Load job} elements enter an iterate with an all-to-all stage in its body",
+      nontrivial := false, tags := ["f18-region", "nodiff"] }
+  else if c.implOut == ["infra"] then
     -- the engine did not run (address clash): nothing to compare; `out` merely echoes the harness
     { out := c.implOut, oracle := none, nontrivial := false, tags := ["infra", "nodiff"] }
   else
@@ -320,6 +397,7 @@ def handle (c : Case) : Verdict :=
       | none, some b => some b
       | some a, some b => some (a ++ " ;; " ++ b)
     let ncov := (coveredSinks job).length
+    let tags := tags ++ (if inF18Region job cfg bm then ["f18-risk"] else [])
     let tags := tags ++ [if orderInsensitive job then "theorem:all-sinks-covered"
                          else if ncov > 0 then "theorem:some-sinks-covered" else "theorem:no-sink-covered"]
     { out := model, oracle, nontrivial, tags }
